@@ -66,6 +66,10 @@ class C12(C02):
             knobs.append(("diff", "renames", "false"))     # rename detection off vs. the default (on)
         ctx = rng.choice([None, "subdir", "dash_C", "dash_C"])
         env = rng.choice(GIT_ENVS) if rng.random() < 0.4 else {}
+        if h["cfg"]["families"][0] == "stash_pathspec" and env.get("GIT_DIFF_OPTS") == "--unified=0":
+            # plain git itself cannot `stash push -- <path>` with zero-context diffs (its internal diff | apply -R
+            # fails: "patch does not apply"); only settings under which git keeps working are part of the claimed space
+            env = {}
         h["variant"] = {"world": {"gitconfig": [list(k) for k in knobs]}, "context": ctx, "git_env": env, "subdir": "src"}
         h["init"]["files"]["src/keep.txt"] = "L0 keep this directory\n"
         if h["cfg"]["hazards"].get("names"):
